@@ -209,13 +209,44 @@ impl Runner {
     }
 
     pub fn flush(&mut self, w: &mut dyn Write) {
+        let big = self.w.dep.get("big").and_then(|x| x.as_bool()).unwrap_or(false);
         for e in self.out.drain(..) {
-            writeln!(w, "{}", e).unwrap();
+            if big {
+                writeln!(w, "{}", stringify_amounts(&e, "")).unwrap();
+            } else {
+                writeln!(w, "{}", e).unwrap();
+            }
         }
     }
 
     pub fn scenario_json(&self) -> Value {
         json!({"id": self.scn, "deploy": self.w.dep, "ops": self.ops})
+    }
+}
+
+/// Production-scale traces: every number except block heights, times, counters and indices is
+/// written as a string (TLC integers are 32-bit); the structural trace specification only compares
+/// such fields for equality.
+pub fn stringify_amounts(v: &Value, key: &str) -> Value {
+    const KEEP: [&str; 20] = ["h", "t", "blk", "restr", "n", "i", "fault", "id", "dh", "dt", "next", "nsnaps",
+        "npos", "twapint", "period", "buffer", "interval", "dec", "round_id", "limit_n"];
+    match v {
+        Value::Number(n) => {
+            if KEEP.contains(&key) {
+                v.clone()
+            } else {
+                Value::String(n.to_string())
+            }
+        }
+        Value::Array(a) => Value::Array(a.iter().map(|x| stringify_amounts(x, key)).collect()),
+        Value::Object(o) => {
+            let mut m = serde_json::Map::new();
+            for (k, x) in o {
+                m.insert(k.clone(), stringify_amounts(x, k));
+            }
+            Value::Object(m)
+        }
+        other => other.clone(),
     }
 }
 
